@@ -1,6 +1,11 @@
 package main
 
-import "strings"
+import (
+	"fmt"
+	"go/ast"
+	"go/types"
+	"strings"
+)
 
 func init() { checks["C09"] = checkC09 }
 
@@ -48,5 +53,130 @@ func checkC09(r *Run) {
 	r.Rule("C09.APPEND", "no append in cesium extends a slice held in a field of a shared object unless the result is stored back into that field (an unsynchronised write into a shared backing array is a data race even under a read lock)", 1)
 	applyLockRules(r, p, lockRuleSet{Prefix: "C09", Scope: cesiumScope, Guards: cesiumGuards, Pair: true, Order: true, MinOps: 100, MinAcc: 120})
 	checkAppendAliasing(r, p, "C09.APPEND", cesiumScope)
+	r.Rule("C09.HARDCLOSE", "a pooled file handle of the domain file controller is hard-closed only on the edge on which tryAcquire() on that same handle succeeded: the pool hands a handle to one user at a time through that flag, and closing one that is in use pulls the file from under a writer or a reader; likewise a pooled handle is handed out (acquireWriter, acquireReader) only on that edge", 6)
+	checkHardClose(r, p)
 	_ = strings.TrimSpace
+}
+
+// checkHardClose decides C09.HARDCLOSE.
+func checkHardClose(r *Run, p *Prog) {
+	n := 0
+	for _, fn := range p.Funcs {
+		if fn.Body == nil || !fn.InPkgs(domainPkg) {
+			continue
+		}
+		c := p.CFG(fn)
+		for _, pt := range c.NodesWhere(func(node ast.Node) bool {
+			return nodeHasCall(fn, node, func(o types.Object, _ *ast.CallExpr) bool {
+				f, ok := o.(*types.Func)
+				return ok && f.Name() == "HardClose"
+			})
+		}) {
+			node := pt.B.Nodes[pt.I]
+			var recv types.Object
+			inspectNoLit(node, func(x ast.Node) bool {
+				if call, ok := x.(*ast.CallExpr); ok {
+					if sel, ok := ast.Unparen(call.Fun).(*ast.SelectorExpr); ok && sel.Sel.Name == "HardClose" {
+						recv = objOf(fn, sel.X)
+					}
+				}
+				return true
+			})
+			if recv == nil {
+				continue // HardClose's own body (c.TrackedWriteCloser...) or a field receiver
+			}
+			if fn.Decl != nil && fn.Decl.Name.Name == "HardClose" {
+				continue
+			}
+			n++
+			acquired := c.EdgesEstablishing(func(atom ast.Expr, val bool) bool {
+				call, ok := ast.Unparen(atom).(*ast.CallExpr)
+				if !ok || !val {
+					return false
+				}
+				sel, ok := ast.Unparen(call.Fun).(*ast.SelectorExpr)
+				return ok && sel.Sel.Name == "tryAcquire" && objOf(fn, sel.X) == recv
+			})
+			q, vis := c.ReachAvoiding([]Point{c.Entry()}, acquired, nil)
+			var path []string
+			if vis[pt] {
+				path = q.PathTo(pt)
+			}
+			r.ObPath("C09.HARDCLOSE", fmt.Sprintf("%s hard-closes %s only after acquiring it", fn.Name, recv.Name()), posOf(p, node), len(acquired) > 0 && path == nil,
+				"the handle may be in use by a writer or reader when its file is closed", path)
+		}
+	}
+	if n < 4 {
+		r.Undecide("C09.HARDCLOSE: only %d HardClose call sites found (expected >= 4)", n)
+	}
+	// a pooled handle is handed out only after tryAcquire on it succeeded
+	nPool := 0
+	for _, fn := range p.Funcs {
+		if fn.Body == nil || !fn.InPkgs(domainPkg) {
+			continue
+		}
+		c := p.CFG(fn)
+		inspectNoLit(fn.Body, func(x ast.Node) bool {
+			rng, ok := x.(*ast.RangeStmt)
+			if !ok || rng.Value == nil {
+				return true
+			}
+			sel, ok := ast.Unparen(rng.X).(*ast.SelectorExpr)
+			if !ok || sel.Sel.Name != "open" {
+				return true
+			}
+			v := objOf(fn, rng.Value)
+			if v == nil {
+				return true
+			}
+			var rets []Point
+			for _, ex := range c.Exits() {
+				if ex.Return == nil || ex.Return.Pos() < rng.Body.Pos() || ex.Return.End() > rng.Body.End() {
+					continue
+				}
+				mentions := false
+				for _, res := range ex.Return.Results {
+					ast.Inspect(res, func(y ast.Node) bool {
+						if id, ok := y.(*ast.Ident); ok && objOf(fn, id) == v {
+							// v.fileKey next to &v is fine; what matters is that the handle itself leaves
+							mentions = true
+						}
+						return true
+					})
+				}
+				if mentions {
+					rets = append(rets, ex.P)
+				}
+			}
+			if len(rets) == 0 {
+				return true
+			}
+			nPool++
+			acquired := c.EdgesEstablishing(func(atom ast.Expr, val bool) bool {
+				call, ok := ast.Unparen(atom).(*ast.CallExpr)
+				if !ok || !val {
+					return false
+				}
+				s2, ok := ast.Unparen(call.Fun).(*ast.SelectorExpr)
+				return ok && s2.Sel.Name == "tryAcquire" && objOf(fn, s2.X) == v
+			})
+			var path []string
+			for _, b := range c.G.Blocks {
+				if b.Stmt == ast.Stmt(rng) && b.Kind.String() == "RangeBody" {
+					q, vis := c.ReachAvoiding([]Point{{b, -1}}, acquired, nil)
+					for _, rp := range rets {
+						if vis[rp] {
+							path = q.PathTo(rp)
+						}
+					}
+				}
+			}
+			r.ObPath("C09.HARDCLOSE", fn.Name+" hands out a pooled handle only after acquiring it", posOf(p, rng), len(acquired) > 0 && path == nil,
+				"two users of one file handle: their offsets and writes interleave", path)
+			return true
+		})
+	}
+	if nPool < 2 {
+		r.Undecide("C09.HARDCLOSE: only %d pool hand-out loops found (expected >= 2)", nPool)
+	}
 }
